@@ -11,7 +11,10 @@ Record case := {
   c_floats : list (fl * (str * str));               (* float, YAML text, JSON text *)
   c_dumped : option (list (option val));            (* per leaf: the entry handed to the dumper (None = no entry) *)
   c_reloaded : option (list (option val));          (* per leaf: the entry the loader returns for the text *)
-  c_out : option (list val)                         (* the re-parsed configuration, or rejected *)
+  c_out : option (list val);                        (* the re-parsed configuration, or rejected *)
+  c_after : option (list val)                       (* the configuration object that was serialised, looked at again after the
+                                                       serialisation (None = not observed: print_config serialises inside
+                                                       its own parse) *)
 }.
 
 Definition missing : val := VOpaque [109;105;115;115;105;110;103]%N [].
@@ -100,12 +103,15 @@ Definition nested_none_dropped (c : case) : bool :=
   vr_skip_none (c_var c)
   && existsb (fun lw => none_loss (top_fill (lf_ty (fst lw))) (lf_ty (fst lw)) (snd lw)) (c_leaves c).
 
+Definition after_same (c : case) : bool :=
+  match c_after c with None => true | a => olist_eqb veq a (Some (map snd (c_leaves c))) end.
+
 Definition judge1 (c : case) : verdict :=
   {| v_model :=
        (if negb (dumped_modelled c) then true
         else if vr_comments (c_var c) then match c_dumped c with None => true | d => olist_eqb oveq (model_dumped c) d end
         else olist_eqb oveq (model_dumped c) (c_dumped c))
-       && forallb str_tie (c_strs c) && forallb float_tie (c_floats c)
+       && forallb str_tie (c_strs c) && forallb float_tie (c_floats c) && after_same c
        && (if text_modelled c then
              match c_dumped c with
              | Some d => olist_eqb oveq (Some (map (option_map (model_reload c)) d)) (c_reloaded c)
@@ -114,7 +120,9 @@ Definition judge1 (c : case) : verdict :=
              && (if nested_none_dropped c then true else olist_eqb veq (model_out c) (c_out c))
            else true);
      v_class := cls c;
-     v_spec := olist_eqb veq (c_out c) (Some (map snd (c_leaves c))) |}.
+     (* "re-parse == the configuration": the configuration is the object handed to dump / save, which therefore has to
+        be, after the call, what it was before (the value model has no mutation: serialising returns new values) *)
+     v_spec := olist_eqb veq (c_out c) (Some (map snd (c_leaves c))) && after_same c |}.
 
 Definition judge (cs : list case) := judge_all judge1 cs.
 
